@@ -118,6 +118,14 @@ func ruleBucketCacheKey(c *report.Ctx) {
 	if n == 0 {
 		c.OK(sk(f)+":no-cache", "FetchBucket keeps no cache", p.Pos(f.Pos()))
 	}
+	// a handle is found by its key only — never by scanning the cached handles for a look-alike
+	an.Instrs(f, func(in ssa.Instruction) {
+		rg, ok := in.(*ssa.Range)
+		if !ok || !strings.HasSuffix(p.Desc(rg.X), "transaction.cache") {
+			return
+		}
+		c.Fail(sk(f)+":cache-scan", "FetchBucket walks the cached handles and reuses one chosen by a partial comparison (name, depth, …) instead of by the full bucket identity: two buckets that agree on the compared attributes but lie under different parents share a handle inside one transaction — one's writes land in the other", posOf(c, in))
+	})
 }
 
 // ruleFailedBatchNotFinished (C18): after the import batch's Update, an error return never reports finish=true.
